@@ -431,8 +431,11 @@ def run(tier, seed=0, replay=None, procs=None, only=None):
     if only:
         cs = [c for c in cs if re.search(only, c.name)]
     q = tier == 'quick'
+    from symx import envsweep
     return main_run(
         PROP, tier, cs, functions=functions(), seed=seed, procs=procs,
+        late_checks=envsweep.late([('detect_one_and_two_dimensional_candidates', 'detection is a function of the dataset',
+                                    lambda v: v['axes-first'][0] == 'CFGrid1D' and v['axes-first'][2] == [2, 3] and v['fields-first'][2] == [2, 3])], only),
         bounds=dict(
             registry=f'up to {2 if q else 3} manually registered and {2 if q else 3} entry-point conventions, every registration order, each '
                      'matching or not with an unbounded Int specificity',
